@@ -425,13 +425,21 @@ Section LookupsProofs.
     - destruct (closest_elem (addr_of s q) (res_of s q)); cbn; assumption.
   Qed.
 
+  (* and so is Close() *)
+  Lemma aclosed_mono s l : l_aclosed s = true -> l_aclosed (step_en s l) = true.
+  Proof.
+    intros H. unfold Lookups.step_en. destruct (enabled s l); [|assumption].
+    destruct l; unfold Lookups.step, Lookups.deliver; cbn; try assumption; try reflexivity;
+      repeat match goal with |- context [match ?x with _ => _ end] => destruct x; cbn end; try assumption; reflexivity.
+  Qed.
+
   (* ---------------------------------------------------------------- progress and termination *)
   (* conditions under which the lookup is bound to end by itself: the owner stops its traversal on
-     every path, and an Announce's consumer keeps reading (or, with the D10 repair, the announce is
-     stopping) *)
+     every path, and an Announce's consumer keeps reading (or, with the D10 repair, the announce has
+     been closed) *)
   Definition live (s : lstate) : Prop :=
     stops_ok = true /\
-    (is_announce c = true -> l_reads s = true \/ (lc_abandon_ctx c = true /\ l_stopping s = true)).
+    (is_announce c = true -> l_reads s = true \/ (lc_abandon_closed c = true /\ l_aclosed s = true)).
 
   Definition is_issue (l : label) : bool := match l with TIssue _ => true | _ => false end.
 
@@ -448,7 +456,7 @@ Section LookupsProofs.
   Lemma query_progress s x rest :
     LInvA s -> l_panic s = false -> l_inflight s = x :: rest ->
     (tq_phase x = PDeliver ->
-       if is_announce c then l_reads s = true \/ (lc_abandon_ctx c = true /\ l_stopping s = true)
+       if is_announce c then l_reads s = true \/ (lc_abandon_closed c = true /\ l_aclosed s = true)
        else l_owner s = OWait \/ l_stopping s = true) ->
     exists l, internal l = true /\ is_issue l = false /\ enabled s l = true.
   Proof.
@@ -530,7 +538,7 @@ Section LookupsProofs.
     { destruct l; try discriminate Il; unfold Lookups.step, Lookups.deliver; cbn; try reflexivity;
         repeat match goal with |- context [match ?x with _ => _ end] => destruct x; cbn end; reflexivity. }
     rewrite Rd. destruct Lv as [?|[Ab St]]; [left; assumption|right]. split; [assumption|].
-    pose proof (stopping_mono s l St) as M. unfold Lookups.step_en in M. rewrite En in M. exact M.
+    pose proof (aclosed_mono s l St) as M. unfold Lookups.step_en in M. rewrite En in M. exact M.
   Qed.
 
   Fixpoint path_ok (s : lstate) (ls : list label) : bool :=
@@ -627,7 +635,7 @@ Section LookupsProofs.
     b_status : is_announce c = true -> forall q a r, In (q, a, r) (l_log s) -> gr_has_r r = true ->
                (exists x, In x (l_inflight s) /\ tq_id x = q /\ tq_phase x = PDeliver) \/
                In (q, a, gr_id r, gr_payload r) (l_delivered s) \/ In q (l_abandoned s);
-    b_abandon : is_announce c = true -> l_abandoned s <> [] -> lc_abandon_ctx c = true
+    b_abandon : is_announce c = true -> l_abandoned s <> [] -> lc_abandon_closed c = true
   }.
 
   Lemma log_unique s q a r a' r' :
@@ -703,7 +711,7 @@ Section LookupsProofs.
     l_delivered sx = D' -> l_abandoned sx = Ab' ->
     ((D' = l_delivered s /\ Ab' = l_abandoned s /\ is_announce c = false) \/
      (exists y, tq_res x = Some y /\ D' = l_delivered s ++ [(q, tq_addr x, gr_id y, gr_payload y)] /\ Ab' = l_abandoned s) \/
-     (D' = l_delivered s /\ Ab' = l_abandoned s ++ [q] /\ (is_announce c = true -> lc_abandon_ctx c = true))) ->
+     (D' = l_delivered s /\ Ab' = l_abandoned s ++ [q] /\ (is_announce c = true -> lc_abandon_closed c = true))) ->
     LInvB sx.
   Proof.
     intros [B1 B2 B3 B4 B5 B6 B7 B8 B9 B10 B11 B12 B13 B14] A Eq P E1 E2 E3 E4 E5 Mode.
@@ -892,7 +900,7 @@ Section LookupsProofs.
       destruct (tq_at_split _ _ _ T) as (x & l1 & l2 & A & Eq & P & _ & U & _).
       unfold Lookups.step.
       eapply (invB_phase_return s _ x l1 l2 q); [exact IB|exact A|exact Eq|exact P|cbn; apply U|reflexivity|reflexivity|reflexivity|reflexivity|].
-      cbn. right. right. repeat split. intros An. rewrite An in Who. destruct (lc_abandon_ctx c); [reflexivity|].
+      cbn. right. right. repeat split. intros An. rewrite An in Who. destruct (lc_abandon_closed c); [reflexivity|].
       exfalso. destruct (a_stopped s IA Who) as [_ E]. rewrite E in A. destruct l1; discriminate.
     - (* QFinish *)
       pose proof En as En'. unfold Lookups.enabled in En'. apply andb_prop in En'. destruct En' as [_ T].
@@ -1318,6 +1326,32 @@ Section LookupsProofs.
       destruct (l_sends s); [reflexivity|discriminate].
   Qed.
 
+  (* a delivery is given up only by an announce that has been closed (repaired variant); never as found *)
+  Lemma abandoned_closed s :
+    reachable s -> is_announce c = true -> l_abandoned s <> [] -> lc_abandon_closed c = true /\ l_aclosed s = true.
+  Proof.
+    intros R An. revert s R.
+    apply (reachable_ind (fun s => l_abandoned s <> [] -> lc_abandon_closed c = true /\ l_aclosed s = true)).
+    - simpl. intros N. exfalso. apply N. reflexivity.
+    - intros s l R IH En.
+      pose proof (invA_reachable s R) as IA.
+      assert (Mono : l_aclosed s = true -> l_aclosed (step s l) = true).
+      { intros H. pose proof (aclosed_mono s l H) as M. unfold Lookups.step_en in M. rewrite En in M. exact M. }
+      destruct l;
+        try (match goal with |- l_abandoned ?t <> [] -> _ =>
+               assert (F : l_abandoned t = l_abandoned s)
+                 by (unfold Lookups.step, Lookups.deliver; cbn;
+                     repeat match goal with |- context [match ?x with _ => _ end] => destruct x; cbn end; reflexivity);
+               rewrite F; intros N; destruct (IH N) as [A B]; split; [exact A|apply Mono; exact B] end).
+      (* QAbandon *)
+      intros _. unfold Lookups.enabled in En. apply andb_prop in En. destruct En as [_ En].
+      apply andb_prop in En. destruct En as [T Who]. rewrite An in Who.
+      destruct (lc_abandon_closed c) eqn:Fl.
+      + split; [reflexivity|]. unfold Lookups.step. cbn. exact Who.
+      + exfalso. destruct (tq_at_split _ _ _ T) as (x & l1 & l2 & A & _).
+        destruct (a_stopped s IA Who) as [_ E]. rewrite E in A. destruct l1; discriminate.
+  Qed.
+
   (* delivery on the Peers channel *)
   Theorem announce_delivery s :
     reachable s -> is_announce c = true ->
@@ -1326,23 +1360,23 @@ Section LookupsProofs.
        exists r, In (q, a, r) (l_log s) /\ gr_has_r r = true /\ i = gr_id r /\ p = gr_payload r) /\
     (* never twice *)
     NoDup (del_ids s) /\
-    (* a response is on its way to the consumer, delivered, or (D10 repair only, while stopping) given up *)
+    (* a response is on its way to the consumer, delivered, or -- D10 repair only, and only once the
+       announce has been CLOSED -- given up; StopTraversing alone never drops a response *)
     (forall q a r, In (q, a, r) (l_log s) -> gr_has_r r = true ->
        (exists x, In x (l_inflight s) /\ tq_id x = q /\ tq_phase x = PDeliver) \/
        In (q, a, gr_id r, gr_payload r) (l_delivered s) \/ In q (l_abandoned s)) /\
-    (lc_abandon_ctx c = false -> l_abandoned s = []) /\
-    (* once the traversal is stopped every response has been dealt with *)
+    (l_abandoned s <> [] -> lc_abandon_closed c = true /\ l_aclosed s = true) /\
+    (* once the traversal is stopped every response has been dealt with: delivered, unless closed *)
     (l_stopped s = true -> forall q a r, In (q, a, r) (l_log s) -> gr_has_r r = true ->
-       In (q, a, gr_id r, gr_payload r) (l_delivered s) \/ In q (l_abandoned s)).
+       In (q, a, gr_id r, gr_payload r) (l_delivered s) \/ (In q (l_abandoned s) /\ l_aclosed s = true)).
   Proof.
     intros R An. pose proof (invA_reachable s R) as IA. pose proof (invB_reachable s R) as IB.
     split; [exact (b_delivered s IB)|]. split; [exact (b_del_nodup s IB)|]. split; [exact (b_status s IB An)|].
-    split.
-    - intros NA. destruct (l_abandoned s) eqn:E; [reflexivity|].
-      assert (l_abandoned s <> []) as N by (rewrite E; discriminate).
-      rewrite (b_abandon s IB An N) in NA. discriminate.
-    - intros Sd q a r I Hr. destruct (b_status s IB An q a r I Hr) as [(x & Ix & _)|H]; [|exact H].
-      destruct (a_stopped s IA Sd) as [_ E]. rewrite E in Ix. destruct Ix.
+    split; [exact (abandoned_closed s R An)|].
+    intros Sd q a r I Hr. destruct (b_status s IB An q a r I Hr) as [(x & Ix & _)|[H|H]].
+    - destruct (a_stopped s IA Sd) as [_ E]. rewrite E in Ix. destruct Ix.
+    - left. exact H.
+    - right. split; [exact H|]. apply (abandoned_closed s R An). intros E. rewrite E in H. destruct H.
   Qed.
 
   (* closing of the Peers channel *)
@@ -1369,7 +1403,7 @@ Section LookupsProofs.
      every maximal run of internal events closes the Peers channel; a run exists and none is infinite *)
   Theorem announce_finishes s :
     reachable s -> is_announce c = true -> l_handle s = true ->
-    (l_reads s = true \/ (lc_abandon_ctx c = true /\ l_stopping s = true)) ->
+    (l_reads s = true \/ (lc_abandon_closed c = true /\ l_aclosed s = true)) ->
     exists ls, forallb internal ls = true /\ path_ok s ls = true /\ length ls <= lmu s /\
                l_peers_closed (exec s ls) = true /\ all_done (exec s ls) = true.
   Proof.
@@ -1473,20 +1507,29 @@ Section LookupsProofs.
     apply IH; assumption.
   Qed.
 
-  (* ================================================================ D10: a consumer that stopped reading blocks the announce for good *)
+  (* ================================================================ a consumer that stopped reading, a response waiting *)
+  (* The state: a get_peers response sits in its getPeers, nobody receives from Peers, and the branch that
+     would give the delivery up is not (yet) open -- announce.go as found: never (it waits for Stopped(),
+     which waits for this delivery: finding D10); repaired: not before Close(). *)
   Definition blocked_state (s : lstate) : Prop :=
-    is_announce c = true /\ lc_abandon_ctx c = false /\ l_reads s = false /\ l_stopped s = false /\
-    l_peers_closed s = false /\ exists x, In x (l_inflight s) /\ tq_phase x = PDeliver.
+    is_announce c = true /\ (lc_abandon_closed c = false \/ l_aclosed s = false) /\ l_reads s = false /\
+    l_stopped s = false /\ l_peers_closed s = false /\ exists x, In x (l_inflight s) /\ tq_phase x = PDeliver.
 
-  Lemma blocked_step s l : LInvA s -> LInvB s -> blocked_state s -> blocked_state (step_en s l).
+  Definition is_close (l : label) : bool := match l with EClose => true | _ => false end.
+
+  Lemma blocked_step s l :
+    LInvA s -> LInvB s -> (lc_abandon_closed c = false \/ is_close l = false) ->
+    blocked_state s -> blocked_state (step_en s l).
   Proof.
-    intros IA IB (An & Ab & Rd & Sd & Pc & x & Ix & Px).
+    intros IA IB Hc (An & Ab & Rd & Sd & Pc & x & Ix & Px).
     unfold Lookups.step_en. destruct (enabled s l) eqn:E; [|repeat split; try assumption; exists x; tauto].
     pose proof E as E'. unfold Lookups.enabled in E'. apply andb_prop in E'. destruct E' as [_ E'].
-    assert (K : forall s', l_reads s' = l_reads s -> l_stopped s' = l_stopped s -> l_peers_closed s' = l_peers_closed s ->
+    assert (K : forall s', l_aclosed s' = l_aclosed s -> l_reads s' = l_reads s -> l_stopped s' = l_stopped s ->
+                           l_peers_closed s' = l_peers_closed s ->
                            (forall y, In y (l_inflight s) -> tq_phase y = PDeliver -> exists y', In y' (l_inflight s') /\ tq_phase y' = PDeliver) ->
                            blocked_state s').
-    { intros s' E1 E2 E3 E4. repeat split; try congruence. destruct (E4 x Ix Px) as (y' & Iy & Py). exists y'. tauto. }
+    { intros s' E0 E1 E2 E3 E4. split; [exact An|]. split; [destruct Ab as [Ab|Ab]; [left; exact Ab|right; congruence]|].
+      repeat split; try congruence. destruct (E4 x Ix Px) as (y' & Iy & Py). exists y'. tauto. }
     assert (Same : forall s', l_inflight s' = l_inflight s ->
                    forall y, In y (l_inflight s) -> tq_phase y = PDeliver -> exists y', In y' (l_inflight s') /\ tq_phase y' = PDeliver).
     { intros s' Ei y Iy Py. exists y. rewrite Ei. tauto. }
@@ -1508,8 +1551,10 @@ Section LookupsProofs.
       destruct (query_panics r), r; cbn; rewrite U; exact G.
     - (* QDeliver: disabled, nobody reads *)
       exfalso. boolhyps. rewrite An, Rd in H0. discriminate.
-    - (* QAbandon: disabled, Stopped cannot come *)
-      exfalso. boolhyps. rewrite An, Ab, Sd in H0. discriminate.
+    - (* QAbandon: disabled: Stopped cannot come, and Close has not come *)
+      exfalso. boolhyps. rewrite An in H0. destruct Ab as [Fl|Ac].
+      + rewrite Fl, Sd in H0. discriminate.
+      + destruct (lc_abandon_closed c); congruence.
     - (* QFinish *)
       destruct (tq_at_split _ _ _ E') as (z & l1 & l2 & A & Eq & Pz & _ & _ & D & _).
       apply K; try (destruct (closest_elem (addr_of s q) (res_of s q)); reflexivity).
@@ -1517,14 +1562,20 @@ Section LookupsProofs.
       assert (In y (l1 ++ l2)) as G.
       { rewrite A in Iy. apply In_split3 in Iy. apply in_or_app. destruct Iy as [?|[->|?]]; try tauto. congruence. }
       destruct (closest_elem (addr_of s q) (res_of s q)); cbn; rewrite D; exact G.
+    - (* EClose: only on the tree as found does it change nothing *)
+      destruct Hc as [Fl|Nc]; [|discriminate Nc].
+      exact (conj An (conj (or_introl Fl) (conj Rd (conj Sd (conj Pc (ex_intro _ x (conj Ix Px))))))).
     - (* EConsumerStop *)
       exfalso. rewrite Rd in E'. discriminate.
   Qed.
 
+  (* as found: for ever, whatever happens (Close() included).  Repaired: for as long as Close() is not
+     called -- which is the contract: StopTraversing alone does not release the consumer from reading. *)
   Theorem blocked_forever ls : forall s, reachable s -> blocked_state s ->
+    (lc_abandon_closed c = false \/ forallb (fun l => negb (is_close l)) ls = true) ->
     l_peers_closed (exec s ls) = false /\ owner_done (exec s ls) = false /\ blocked_state (exec s ls).
   Proof.
-    induction ls as [|l ls IH]; intros s R B; simpl.
+    induction ls as [|l ls IH]; intros s R B Hc; simpl.
     - pose proof B as B0. destruct B as (An & _ & _ & Sd & Pc & x & Ix & _). split; [assumption|]. split; [|assumption].
       pose proof (invA_reachable s R) as IA. destruct (owner_done s) eqn:D; [|reflexivity].
       (* a returned owner with the handle out would have closed the channel; without a handle the
@@ -1534,8 +1585,11 @@ Section LookupsProofs.
         assert (l_peers_closed s = true) by (apply (a_ann_done s IA An); unfold owner_done in D; rewrite D, Hd; reflexivity).
         congruence.
       + rewrite (a_seeded s IA Se) in Ix. destruct Ix.
-    - apply IH; [apply reachable_step; assumption|].
-      apply blocked_step; [apply invA_reachable|apply invB_reachable|]; assumption.
+    - apply IH; [apply reachable_step; assumption| |].
+      + apply blocked_step; [apply invA_reachable|apply invB_reachable| |]; try assumption.
+        destruct Hc as [Fl|Hc]; [left; exact Fl|right]. simpl in Hc. apply andb_prop in Hc. destruct Hc as [Hc _].
+        apply negb_true_iff in Hc. exact Hc.
+      + destruct Hc as [Fl|Hc]; [left; exact Fl|right]. simpl in Hc. apply andb_prop in Hc. tauto.
   Qed.
 End LookupsProofs.
 
